@@ -46,8 +46,17 @@ def concretize(case, variant):
     tn = TNAMES[(variant // 2) % len(TNAMES)]
     data = {"pair": ["p", "q"]}
     out = {}
+    blank = variant % 4 == 3       # every fourth spelling: the ROOT template's blocks are placeholders (no text inside them); what the
+    blanked = set()                # chain must print is the required marker sequence without those markers
     for i, toks in enumerate(tpls, start=1):
         parent = i + 1 if i < len(tpls) else ext
+        depth_at, d = {}, 0
+        for p, tok in enumerate(toks, start=1):
+            if tok["k"] == "Bc":
+                d -= 1
+            depth_at[p] = d
+            if tok["k"] == "Bo":
+                d += 1
         q = "'" if (variant + i) % 2 else '"'
         src = [f"{{% extends {q}{tn(parent)}{q} %}}"] if parent else []
         for p, tok in enumerate(toks, start=1):
@@ -55,6 +64,9 @@ def concretize(case, variant):
             mark = f"({i}.{p})"
             form = (variant + i + p) % 3
             if k == "T":
+                if blank and i == len(tpls) and depth_at[p] >= 1:
+                    blanked.add(i * 100 + p)        # a placeholder: the root's block bodies hold no text of their own
+                    continue
                 src.append(mark if form else "{{ '" + mark + "' }}")
             elif k == "V":
                 data[f"v{i}_{p}"] = mark
@@ -84,6 +96,7 @@ def concretize(case, variant):
                 table = TWICE if k == "Fc" else ONCE
                 src.append(table[(variant + j) % len(table)][1].replace("@", f"z{i}_{j}"))
         out[tn(i)] = "".join(src)
+    concretize.blanked = blanked
     return out, tn(1), data
 
 
@@ -183,11 +196,14 @@ def judge(exp, o):
 def replay_one(job):
     case, variant = job
     tmpl, leaf, data = concretize(case, variant)
+    exp = case["exp"]
+    if concretize.blanked and "seq" in exp:
+        exp = dict(exp, seq=[m for m in exp["seq"] if m not in concretize.blanked])
     env = harness.make_env(templates=tmpl)
     res = []
     for how in ("sync", "async"):
         o = observe(env, leaf, data, how, direct_source=tmpl[leaf] if variant % 5 == 4 else None)
-        why = judge(case["exp"], o)
+        why = judge(exp, o)
         res.append((how, why, {k: v for k, v in o.items() if k in ("out", "seq", "err", "phase", "msg", "detail")}))
     return tmpl, leaf, data, res
 
